@@ -6,7 +6,7 @@ for r in $(seq 1 $ROUNDS); do
   for p in C01 C02 C03 C04 C05 C06 C07 C08 C09 C10 C11 C12 C13 C14 C15 C16 C17 C18 C19 C20; do
     G=$(( (RANDOM % 4 == 0) ? 2 : ((RANDOM % 3 == 0) ? 4 : 16) ))
     S=$(( RANDOM % 1000 + 2 ))
-    OUT=$(GOMAXPROCS=$G VERIF_SEED=$S ./check $p quick 2>&1); RC=$?
+    OUT=$(VERIF_EVIDENCE_DIR=/verif/.work/evidence-stress GOMAXPROCS=$G VERIF_SEED=$S ./check $p quick 2>&1); RC=$?
     echo "round=$r prop=$p seed=$S gomaxprocs=$G rc=$RC $(echo "$OUT" | grep -a -E 'VIOLATION|INCONCLUSIVE' | head -2 | cut -c1-200)"
   done
 done
